@@ -1,1 +1,37 @@
-fn main() { println!("hello"); }
+mod clock;
+mod mc;
+mod rt;
+mod util;
+mod smoke;
+mod codec;
+
+fn main() {
+    clock::self_test();
+    let args: Vec<String> = std::env::args().skip(1).collect();
+    let cmd = args.first().map(|s| s.as_str()).unwrap_or("");
+    let tier = args.get(1).map(|s| s.as_str()).unwrap_or("quick");
+    let tier = std::env::var("VERIF_TIER").unwrap_or_else(|_| tier.to_string());
+    std::env::set_var("VERIF_TIER_ARG", &tier);
+    match cmd {
+        "smoke" => smoke::run(),
+        "C05" => codec::run_c05(),
+        "C06" => codec::run_c06(),
+        "replay" => replay(&args),
+        _ => {
+            eprintln!("unknown command {cmd}");
+            std::process::exit(2);
+        }
+    }
+}
+
+fn replay(args: &[String]) {
+    let path = args.get(1).expect("replay <path>");
+    let v: serde_json::Value = serde_json::from_str(&std::fs::read_to_string(path).expect("readable")).expect("json");
+    let prop = v["property"].as_str().unwrap_or("");
+    println!("replaying {} clause={} key={}", prop, v["clause"], v["key"]);
+    println!("recorded detail: {}", v["detail"]);
+    match v["replay"]["engine"].as_str().unwrap_or("") {
+        "codec" => codec::replay(v["replay"]["check"].as_str().unwrap_or(""), &v["replay"]),
+        e => { eprintln!("no replayer for engine {e}"); std::process::exit(2); }
+    }
+}
